@@ -440,6 +440,8 @@ def _b(m):
 
 def run(ctx):
     ctx.rule = (
+        '(plus: properties declared on a plain mixin before / after '
+        'DBusObject in the bases, interface named or not) '
         'object family built fresh per execution: %d property declarations '
         'over 3 interfaces (types s i b ay u as o d; read / write / readwrite; '
         'notification true / false / invalidates), one name declared '
@@ -729,8 +731,113 @@ def run_store():
     return viol
 
 
+def run_mixin(mixin_first, explicit):
+    """properties declared on a plain Python mixin (not a DBusObject) that
+    the exported class lists among its bases, before or after DBusObject,
+    with the interface named explicitly or left to be found"""
+    from txdbus import objects as O, interface as I
+    viol = []
+    cw = fakes.ClientWorld()
+    try:
+        audio = I.DBusInterface(
+            'org.ex.Audio', I.Property('Volume', 'u', writeable=True),
+            I.Property('Muted', 'b', writeable=True, emitsOnChange=False),
+            noRegister=True)
+        other = I.DBusInterface(
+            'org.ex.Named', I.Property('Title', 's', writeable=True),
+            noRegister=True)
+
+        class AudioProps(object):
+            volume = O.DBusProperty('Volume', 'org.ex.Audio') if explicit \
+                else O.DBusProperty('Volume')
+            muted = O.DBusProperty('Muted', 'org.ex.Audio') if explicit \
+                else O.DBusProperty('Muted')
+
+        bases = (AudioProps, O.DBusObject) if mixin_first else \
+            (O.DBusObject, AudioProps)
+        Player = type('Player', bases, {
+            'dbusInterfaces': [audio, other],
+            'title': O.DBusProperty('Title')})
+        o = Player('/player')
+        where = 'mixin %s DBusObject, interface %s' % (
+            'before' if mixin_first else 'after',
+            'named' if explicit else 'not named')
+        try:
+            o.volume, o.muted, o.title = 1, True, 'a'
+            cw.conn.exportObject(o)
+            cw.sent()
+            o.volume = 5
+            o.muted = False
+            o.title = 't'
+        except Exception as e:
+            viol.append(('mixin/assign-raises-%s' % type(e).__name__,
+                         '%s: assigning the properties locally raised %r'
+                         % (where, e)))
+            return viol
+        sigs = [m for m in cw.sent() if m['type'] == 4]
+        changed = sorted(k for m in sigs if m['fields'].get('member') ==
+                         'PropertiesChanged'
+                         for k in m['body_plain'][1])
+        if changed != ['Title', 'Volume']:
+            viol.append(('mixin/changed-signals',
+                         '%s: local assignment of Volume, Muted (no '
+                         'notification) and Title announced %r'
+                         % (where, changed)))
+        P = 'org.freedesktop.DBus.Properties'
+        serial = 700
+        steps = [
+            ('Get', 'ss', ['org.ex.Audio', 'Volume'], ('ok', [5])),
+            ('Get', 'ss', ['org.ex.Audio', 'Muted'], ('ok', [False])),
+            ('Set', 'ssv', ['org.ex.Audio', 'Volume', Var('u', 9)],
+             ('ok', [])),
+            ('Get', 'ss', ['org.ex.Audio', 'Volume'], ('ok', [9])),
+            ('GetAll', 's', ['org.ex.Audio'],
+             ('ok', [{'Volume': 9, 'Muted': False}])),
+            ('GetAll', 's', ['org.ex.Named'], ('ok', [{'Title': 't'}])),
+            ('Set', 'ssv', ['org.ex.Audio', 'Muted', Var('b', True)],
+             ('ok', [])),
+            ('Get', 'ss', ['org.ex.Audio', 'Muted'], ('ok', [True])),
+        ]
+        for member, sig, body, want in steps:
+            serial += 1
+            cw.conn.dataReceived(R.encode_message(
+                R.METHOD_CALL, serial,
+                {'path': '/player', 'member': member, 'sender': CALLER,
+                 'interface': P, 'destination': ':1.7'}, sig, body))
+            mine = [m for m in cw.sent()
+                    if m['fields'].get('reply_serial') == serial]
+            got = ('ok', mine[0]['body_plain']) if len(mine) == 1 and \
+                mine[0]['type'] == 2 else ('other', [_b(m) for m in mine])
+            if got != want:
+                viol.append(('mixin/%s' % member,
+                             '%s: %s%r answered %r, expected %r'
+                             % (where, member, tuple(body[:2]), got, want)))
+                break
+        if not viol and (o.volume, o.muted) != (9, True):
+            viol.append(('mixin/local-read',
+                         '%s: after the remote Sets the object reads '
+                         'volume=%r muted=%r' % (where, o.volume, o.muted)))
+    except Exception as e:
+        viol.append(('mixin/raises-%s' % type(e).__name__,
+                     'mixin first %r, explicit %r: %r' % (mixin_first,
+                                                          explicit, e)))
+    finally:
+        cw.close()
+    return viol
+
+
 def _task_early(_):
     res = core.Result()
+    for mixin_first in (True, False):
+        for explicit in (True, False):
+            res.count('states')
+            res.count('transitions', 11)
+            res.count('evaluations')
+            res.count('nontrivial')
+            for t, w in run_mixin(mixin_first, explicit):
+                res.violation('%s/%s' % (PROP, t), w,
+                              {'part': 'mixin', 'args': [mixin_first,
+                                                         explicit]}, size=1)
     for which in ('base', 'derived'):
         res.count('states')
         res.count('transitions', 12)
@@ -765,6 +872,9 @@ def _task_early(_):
 
 
 def replay(data):
+    if data.get('part') == 'mixin':
+        return [('%s/%s' % (PROP, t), w) for t, w in
+                run_mixin(*data['args'])]
     if data.get('part') == 'store':
         return [('%s/%s' % (PROP, t), w) for t, w in run_store()]
     if data.get('part') == 'shared':
